@@ -52,7 +52,8 @@ def secret_range(ctx):
 
 
 @PROP.obligation('C04.oncurve', canaries=[
-    mut.replace_expr('keys', 'Key.__init__', 'not 0 <= px < secp256k1_p or (py * py - px * px * px - 7) % secp256k1_p != 0', '(py * py - pow(px, 3, secp256k1_p) - 7) % secp256k1_p != 0', 'on-curve test loses the x < p range check'),
+    mut.replace_expr('keys', 'Key.__init__', 'not 0 <= px < secp256k1_p', 'False', 'on-curve test loses the x < p range check'),
+    mut.replace_expr('keys', 'Key.__init__', 'not 0 <= py < secp256k1_p', 'False', 'on-curve test loses the y < p range check'),
     mut.drop_stmt('keys', 'Key.__init__', 'if strict:', 'on-curve test removed', nth=1),
     mut.const('keys', 'Key.__init__', 7, 3, 'curve constant b = 3', nth=0),
     mut.replace_expr('scripts', 'Script.parse_bytesio', 'Key(data, strict=strict)', 'Key(data, strict=False)', 'script parser never validates keys') if False else
@@ -60,8 +61,8 @@ def secret_range(ctx):
     mut.cmpop('keys', 'Key.__init__', '(py * py - px * px * px - 7) % secp256k1_p != 0', ast.Eq, 'on-curve test inverted'),
 ])
 def oncurve(ctx):
-    """Key.__init__(strict=True): for an imported public key, x >= p raises, and a point violating y^2 = x^3 + 7 (mod p) raises;
-    a point satisfying both is accepted. Decided on the extracted decision structure with the curve equation as an atom."""
+    """Key.__init__(strict=True): for an imported public key, a coordinate outside [0, p) raises (x as well as y: the equation is
+    tested modulo p, so y + p satisfies it too), and a point violating y^2 = x^3 + 7 (mod p) raises; a point satisfying all is accepted. Decided on the extracted decision structure with the curve equation as an atom."""
     q = 'keys:Key.__init__'
     fn, exits = _key_init(ctx, strict=True)
     pp = ('mcall', SELF, 'public_point', (), ())
@@ -126,6 +127,11 @@ def oncurve(ctx):
     scen('x = p + 1 (non-canonical), equation holds', {px: P + 1}, on, True)
     scen('x = p, equation holds', {px: P}, on, True)
     scen('x = -1', {px: -1}, on, True)
+    # the generator with its y coordinate shifted by the field prime: the same residue, so the equation still holds
+    GX, GY = 0x79BE667EF9DCBBAC55A06295CE870B07029BFCDB2DCE28D959F2815B16F81798, 0x483ADA7726A3C4655DA4FBFC0E1108A8FD17B448A68554199C47D08FFB10D4B8
+    scen('the generator point', {px: GX, py: GY}, on, False)
+    scen('generator with y + p (non-canonical), equation holds', {px: GX, py: GY + P}, on, True)
+    scen('generator with y - p (negative), equation holds', {px: GX, py: GY - P}, on, True)
 
 
 def _subst(t, a, v):
